@@ -133,7 +133,7 @@ func invokeOn(recvSuffix string, methods ...string) eng.Matcher {
 		if cc.IsInvoke() {
 			name = cc.Method.Name()
 		} else if f := cc.StaticCallee(); f != nil && f.Signature.Recv() != nil {
-			name = f.Name()
+			name = baseName(f.Name())
 		} else {
 			return false
 		}
@@ -157,3 +157,11 @@ func invokeOn(recvSuffix string, methods ...string) eng.Matcher {
 func descOf(c *eng.Ctx, v ssa.Value) string { return c.P.Desc(v) }
 
 var constantZero = constant.MakeInt64(0)
+
+// baseName strips the type-argument list of an instantiated generic function name.
+func baseName(n string) string {
+	if i := strings.Index(n, "["); i >= 0 {
+		return n[:i]
+	}
+	return n
+}
